@@ -208,12 +208,9 @@ class BDeuScore(StructureScore):
         log_gamma_conds = np.sum(counts, axis=0, dtype=float)
         gammaln(log_gamma_conds + alpha, out=log_gamma_conds)
 
-        # Adjustment because of missing 0 columns when using reindex=False for computing state_counts to save memory.
-        gamma_counts_adj = (
-            (num_parents_states - counts.shape[1])
-            * len(self.state_names[variable])
-            * gammaln(beta)
-        )
+        # Adjustment because of missing 0 columns (unobserved parent configurations) and 0 rows
+        # (unobserved states of `variable`) when using reindex=False for computing state_counts to save memory.
+        gamma_counts_adj = (counts_size - counts.size) * gammaln(beta)
         gamma_conds_adj = (num_parents_states - counts.shape[1]) * gammaln(alpha)
 
         score = (
@@ -307,12 +304,9 @@ class BDsScore(BDeuScore):
         log_gamma_conds = np.sum(counts, axis=0, dtype=float)
         gammaln(log_gamma_conds + alpha, out=log_gamma_conds)
 
-        # Adjustment because of missing 0 columns when using reindex=False for computing state_counts to save memory.
-        gamma_counts_adj = (
-            (num_parents_states - counts.shape[1])
-            * len(self.state_names[variable])
-            * gammaln(beta)
-        )
+        # Adjustment because of missing 0 columns (unobserved parent configurations) and 0 rows
+        # (unobserved states of `variable`) when using reindex=False for computing state_counts to save memory.
+        gamma_counts_adj = (counts_size - counts.size) * gammaln(beta)
         gamma_conds_adj = (num_parents_states - counts.shape[1]) * gammaln(alpha)
 
         score = (
